@@ -47,6 +47,12 @@ class Scenario:
                 ops.append(cluster.client_op(nodes[0], nodes, {"op": "set", "k": k, "v": val if i == ver else "old%d" % i}))
         start = len(ops)
         for o in self.ops:
+            if o["op"] == "snapshot":
+                ops.append(cluster.client_op(o["node"], nodes, {"op": "snapshot", "reclaim": False, "names": ["d"]}, c="a"))
+                continue
+            if o["op"] == "tick":
+                ops.append({"node": o["node"], "tick": o["node"], "line": "<declutter %s>" % o["node"], "op": {"op": "tick"}})
+                continue
             op = {"op": o["op"], "k": o["k"]}
             if o["op"] == "set":
                 if o.get("ver", -1) == -1:
